@@ -221,6 +221,11 @@ def _batch_cases(draw):
     c = draw(_base(max_p=7))
     c["a"] = draw(gen.record_specs(min_n=2, max_n=MAX_N))
     p = len(c["ratios"])
+    if draw(st.integers(0, 4)) == 0:
+        # integer-typed periods (python ints), as the repo's own test passes ([0, 2, 4])
+        c["dt"] = draw(st.sampled_from([1.0, 0.5, 0.25, 0.1]))
+        c["int_periods"] = draw(st.lists(st.integers(1, 40), min_size=p, max_size=p))
+        c["ratios"] = [t / c["dt"] for t in c["int_periods"]]
     c["perm"] = draw(st.permutations(list(range(p))))
     c["cuts"] = sorted(draw(st.lists(st.integers(1, max(1, p - 1)), max_size=3, unique=True))) if p > 1 else []
     return c
@@ -241,6 +246,15 @@ def batch(case, ctx):
     ctx.nt(bool(np.any(a) and p >= 2 and perm != list(range(p))))
     lead = [0.0] if case["lead0"] else []
     s = len(lead)
+    ints = case.get("int_periods")
+    if ints:
+        ctx.cls("int-periods")
+
+    def mk(idx):
+        """Period container for the periods idx (python ints when the case says so, else a float ndarray)."""
+        if ints:
+            return ([0] if s else []) + [int(ints[i]) for i in idx]
+        return np.array(lead + [T[i] for i in idx])
     base = ctx.lib(sdof.response_series, a, dt, np.array(lead + list(T)), xi)
     su, sv, sa = ref.lib_scales(a, dt, T, xi, base[0][s:], base[1][s:])
     scales = (su, sv, sa)
@@ -262,7 +276,7 @@ def batch(case, ctx):
             ctx.close(np.asarray(tres[k])[s:], np.asarray(tb[k])[s:][idx], 1e-10 * sp_scales["true"][k][idx], "%s: true %s" % (what, name))
 
     def call(idx):
-        P = np.array(lead + [T[i] for i in idx])
+        P = mk(idx)
         return (ctx.lib(sdof.response_series, a, dt, P, xi), ctx.lib(sdof.pseudo_response_spectra, a, dt, P, xi),
                 ctx.lib(sdof.true_response_spectra, a, dt, P, xi))
 
